@@ -347,7 +347,28 @@ impl Prop for C19 {
         }
         let mut cfg = producer_cfg(&mut g);
         cfg.nasty_strings = true;
-        let prog = gen_program(rc.run_seed, &cfg);
+        let mut prog = gen_program(rc.run_seed, &cfg);
+        let beyond_small = rc.index % 16 == 1;
+        if beyond_small {
+            // content beyond small-test scale: a cloud of several real 64 KiB packets with
+            // mixed odd bit widths (the copy is written with the library's own packet capacity)
+            // and a payload of 64 KiB or more
+            prog.calls.push(super::c01::mixed_width_cloud(&mut g));
+            let len = *g.pick(&[65_535usize, 65_536, 65_537, 70_000, 131_072, 200_003]);
+            let mlen = *g.pick(&[0usize, 100, 65_536, 66_000]);
+            prog.calls.push(Call::Img {
+                guid: gen_guid(&mut g),
+                steps: vec![ImgStep::Rep(RepSpec {
+                    kind: crate::model::RepKind::Visual,
+                    format: crate::model::Format::Jpeg,
+                    data: crate::model::Bytes::draw(&mut g, len),
+                    mask: if mlen > 0 { Some(crate::model::Bytes::draw(&mut g, mlen)) } else { None },
+                    props: crate::model::RepProps { width: 640, height: 480, floats: vec![] },
+                    pipe: Chunk::Full,
+                })],
+                end: SubEnd::Finalize,
+            });
+        }
         let source = if rc.index % 2 == 0 {
             Source::Writer
         } else {
@@ -355,7 +376,8 @@ impl Prop for C19 {
             // guids must be present for the copy: foreign bits 0 and 1 off; bounds, partial limits, version on at random
             Source::Producer { layout: Layout::draw(&mut l), foreign: (g.below(32) as u8) & !3 }
         };
-        Case { origin: Origin::Generated { prog, source }, chunks, knob: if g.chance(1, 2) { Some(*g.pick(&KNOBS)) } else { None } }
+        let knob = if beyond_small || g.chance(1, 2) { None } else { Some(*g.pick(&KNOBS)) };
+        Case { origin: Origin::Generated { prog, source }, chunks, knob }
     }
     fn execute(&self, case: &Case, st: &mut RunStats) -> Outcome<Case> {
         run_case(case, st)
